@@ -23,7 +23,21 @@ ALL_OPS = ["rows", "cols", "concat", "concat1", "copy", "row", "col", "eq", "str
 def _encodings():
     import bionumpy as bnp
     from bionumpy.encodings.alphabet_encoding import ACGTnEncoding, AminoAcidEncoding
-    return [("ascii", None, "xy"), ("DNA", bnp.DNAEncoding, "AG"), ("DNA2", bnp.DNAEncoding, "TC"), ("ACGTN", ACGTnEncoding, "NA"), ("amino", AminoAcidEncoding, "W*")]
+    # "ascii-wide": ASCII text whose codes are held in a 64-bit integer array (EncodedArray(np.array([ord(c) ...]), BaseEncoding), the
+    # construction the class docstring shows), not in bytes
+    return [("ascii", None, "xy"), ("ascii-wide", "wide", "xy"), ("DNA", bnp.DNAEncoding, "AG"), ("DNA2", bnp.DNAEncoding, "TC"), ("ACGTN", ACGTnEncoding, "NA"), ("amino", AminoAcidEncoding, "W*")]
+
+
+def _create(texts, enc):
+    """ragged array of the texts in the given encoding (None = ASCII as as_encoded_array makes it; "wide" = ASCII codes in an int64 array)"""
+    import bionumpy as bnp
+    from bionumpy.encoded_array import EncodedArray, EncodedRaggedArray, BaseEncoding
+    if enc == "wide":
+        codes = np.array([ord(c) for t in texts for c in t], dtype=np.int64)
+        return EncodedRaggedArray(EncodedArray(codes, BaseEncoding), [len(t) for t in texts])
+    if not texts:
+        return bnp.as_encoded_array([""], enc)[:0] if enc is not None else bnp.as_encoded_array([""])[:0]
+    return bnp.as_encoded_array(list(texts), enc) if enc is not None else bnp.as_encoded_array(list(texts))
 
 
 def _row_index(kind, n):
@@ -53,11 +67,15 @@ def check_matrix_vector(v):
     import bionumpy as bnp
     prog, obs, pool_exp = v["prog"], v["obs"], v["pool"]
     bad, n = [], 0
-    for ename, enc, letters in _encodings()[:3]:
+    for ename, enc, letters in _encodings()[:4]:
         txt = lambda row: "".join(letters[c] for c in row)
         rows0 = prog[0]["start"]
         w = len(rows0[0])
-        flat = bnp.as_encoded_array("".join(txt(r) for r in rows0), enc) if enc is not None else bnp.as_encoded_array("".join(txt(r) for r in rows0))
+        if enc == "wide":
+            from bionumpy.encoded_array import EncodedArray, BaseEncoding
+            flat = EncodedArray(np.array([ord(c) for r in rows0 for c in txt(r)], dtype=np.int64), BaseEncoding)
+        else:
+            flat = bnp.as_encoded_array("".join(txt(r) for r in rows0), enc) if enc is not None else bnp.as_encoded_array("".join(txt(r) for r in rows0))
         pool = [flat.reshape(len(rows0), w)]
         last, failed = ("ok", None), None
         for step, op in enumerate(prog[1:]):
@@ -139,7 +157,7 @@ def check_vector(v):
         # the first array of the pool is the program's start; later assignments may have changed it, so rebuild the start from the program
         first = v["start"] if "start" in v else None
         rows0 = v["_start"]
-        a0 = bnp.as_encoded_array([txt(r) for r in rows0], enc) if rows0 else (bnp.as_encoded_array([""], enc)[:0])
+        a0 = _create([txt(r) for r in rows0], enc)
         pool = [a0]
         last = ("ok", None)
         failed = None
